@@ -34,6 +34,9 @@ MUTATIONS = {
     "revert-b588aa3a-timelocks": ("src/policy/concrete.rs",
         "infos.push(if satisfiable { info } else { TimelockInfo::default() });",
         "infos.push(info);"),
+    "or-drops-zero-odds": ("src/policy/mod.rs",
+        "subs.iter().map(|(_p, sub)| sub.lift_unchecked()).collect();",
+        "subs.iter().filter(|(p, _sub)| *p > 0).map(|(_p, sub)| sub.lift_unchecked()).collect();"),
     "norm-no-trivial-sub": ("src/policy/semantic.rs",
         "let m = thresh.k().saturating_sub(trivial_count); // satisfy all trivial",
         "let m = thresh.k(); // MUT"),
